@@ -1,11 +1,14 @@
 """C03: severity routing and writer-set configuration follow the documented model."""
 import corelib
 
-CUSTOMS = [dict(v=13, title="NOTICE13", treat=4, err=False), dict(v=14, title="SWELL14", treat=2, err=True)]
-TREAT = {9: 4, 10: 4, 11: 2, 13: 4, 14: 2}
-ERRDEV = [0, 1, 2, 3, 11, 14]
-# probe severities: normal, error class, warn, always, off, custom normal, custom error-device, fail, debug
-PROBES = [4, 2, 3, 8, 7, 13, 14, 11, 5]
+CUSTOMS = [dict(v=13, title="NOTICE13", treat=4, err=False), dict(v=14, title="SWELL14", treat=2, err=True),
+           dict(v=-21, title="NEGERR", treat=4, err=True), dict(v=300, title="BIGERR", treat=-1, err=True),
+           dict(v=70, title="BIGNORM", treat=2, err=False), dict(v=64, title="SIXTYFOUR", treat=-1, err=True)]
+TREAT = {9: 4, 10: 4, 11: 2, 13: 4, 14: 2, -21: 4, 70: 2}
+ERRDEV = [0, 1, 2, 3, 11, 14, -21, 300, 64]
+# probe severities: normal, error class, warn, always, off, custom normal, custom error-device, fail, debug,
+# custom levels with negative / large values with and without the error device, an unregistered value
+PROBES = [4, 2, 3, 8, 7, 13, 14, 11, 5, -21, 300, 70, 64, 99]
 OBS = ["dest"]
 WANTS = [3, 4, 7, 8]       # writer ids w with (w-1)%4 in {2,3} ask to be told the severity (harness/rec.go)
 
